@@ -261,7 +261,9 @@ class FnSpec:
         self.ats = []
         self.closures = {}
         self.nested = {}
+        self.loop_iter_names = {}
         self.opaques = []
+        self.opaque_exprs = []
         self.desugars = []
         self.etas = []
         self.default_from = None
@@ -368,7 +370,12 @@ def parse_vspec(path):
                 if h2 == '@spec':
                     fs.spec, i = block(i + 1)
                 elif h2 == '@loop':
-                    k = int(r2)
+                    parts = r2.split()
+                    k = int(parts[0])
+                    for extra in parts[1:]:
+                        if extra.startswith('iter='):
+                            # A13: `for P in E` -> `for P in NAME: E` (Verus' syntax for naming the ghost iterator)
+                            fs.loop_iter_names[k] = extra[5:]
                     fs.loops[k], i = block(i + 1)
                 elif h2 == '@at':
                     if r2.strip() == 'start':
@@ -408,6 +415,13 @@ def parse_vspec(path):
                     if not m:
                         raise Undecided('%s:%d: bad @opaque' % (path, i + 1))
                     fs.opaques.append((m.group(1).replace('\\"', '"'), m.group(2).replace('\\"', '"'), m.group(3).strip()))
+                    i += 1
+                elif h2 == '@opaque_expr':
+                    # @opaque_expr "expression tokens" => opaque__f(args)     (rule D6, expression form)
+                    m = re.match(r'"((?:[^"\\]|\\.)*)"\s*=>\s*(.*)$', r2)
+                    if not m:
+                        raise Undecided('%s:%d: bad @opaque_expr' % (path, i + 1))
+                    fs.opaque_exprs.append((m.group(1).replace('\\"', '"'), m.group(2).strip()))
                     i += 1
                 elif h2 == '@nested':
                     # @nested NAME ret=r ... @end : contract for a fn item nested in the body (A1 + A5 on the nested item)
@@ -831,6 +845,22 @@ class Extractor:
         unit's trusted preamble (its contract - what the dropped statements leave unchanged - is an assumption).  The
         replacement is restricted: `[let PAT =] opaque__name(args)[?];`, fallible iff the dropped text contains `?`, and a
         `let` pattern must be one the dropped text binds.  Dropped text with return/break/continue is refused."""
+        for needle, repl in fs.opaque_exprs:
+            # expression form: a complete argument / initialiser expression without `?`, replaced by a call of an opaque
+            # function (assumed: it has no effect on the state the contracts talk about; its value is unconstrained)
+            toks = lex(body)
+            nt = [t.text for t in lex(needle)]
+            a = next((k for k in range(len(toks) - len(nt) + 1) if [t.text for t in toks[k:k + len(nt)]] == nt), None)
+            if a is None:
+                raise Undecided('lost anchor: `%s` in %s' % (needle, where))
+            e = a + len(nt) - 1
+            if toks[a - 1].text not in ('(', ',', '=') or toks[e + 1].text not in (')', ',', ';'):
+                raise Undecided('@opaque_expr `%s` in %s is not a complete argument / initialiser expression' % (needle, where))
+            if '?' in nt or 'return' in nt or not re.match(r'^opaque__\w+\([^;]*\)$', repl):
+                raise Undecided('@opaque_expr `%s` in %s: unsupported shape' % (needle, where))
+            old = body[toks[a].start:toks[e].end]
+            drops.append('D6 %s: expression `%s` replaced by `%s` (opaque value, assumed effect-free)' % (where, norm(old)[:300], repl))
+            body = body[:toks[a].start] + repl + '\n' * old.count('\n') + body[toks[e].end:]
         for first, last, repl in fs.opaques:
             toks = lex(body)
             ft = [t.text for t in lex(first)]
@@ -894,6 +924,15 @@ class Extractor:
                             % (where, len(loop_heads), sorted(fs.loops)))
         for n, text in fs.loops.items():
             k = loop_heads[n - 1] + 1
+            if n in fs.loop_iter_names:
+                if toks[loop_heads[n - 1]].text != 'for':
+                    raise Undecided('iter= on a loop that is not a `for` in %s' % where)
+                j = k
+                while not (toks[j].kind == 'ident' and toks[j].text == 'in'):
+                    if toks[j].text in ('(', '[', '{'):
+                        j = match_close(toks, j)
+                    j += 1
+                inserts.append((toks[j].end, ' %s:' % fs.loop_iter_names[n], 1))
             while toks[k].text != '{':
                 if toks[k].text in ('(', '['):
                     k = match_close(toks, k)
